@@ -471,7 +471,6 @@ def suite_gen_alignment(rng, tier, shard, nshards):
         for d in (_F(0), _F(-1), _F(1, 32), None):
             c = AS.case("alignment.percentage_correct_segments", [z, list(z), d], "X all-zero timestamps duration=%s" % d,
                         nontrivial=False)
-            yield c
             if "percentage_correct_segments" in avail:
                 yield _ga_retarget(c)
     for c in _ga_prim_cases(rng, tier):
@@ -479,6 +478,21 @@ def suite_gen_alignment(rng, tier, shard, nshards):
 
 
 SUITES["gen_alignment"] = suite_gen_alignment
+
+
+def suite_alignment_zero_corner(rng, tier, shard, nshards):
+    """HAND MODEL vs the real `percentage_correct_segments` where all timestamps are 0 (see suite_gen_alignment): not a gen_*
+    suite, so a disagreement here is a failing input of C04"""
+    from fractions import Fraction as _F
+    from suites import alignment as AS
+    for n in (1, 2, 3):
+        z = [_F(0)] * n
+        for d in (_F(0), _F(-1), _F(1, 32), None):
+            yield AS.case("alignment.percentage_correct_segments", [z, list(z), d],
+                          "X all-zero timestamps duration=%s" % d, nontrivial=False)
+
+
+SUITES["alignment.zero_corner"] = suite_alignment_zero_corner
 
 
 def suite_gen_evalglue(rng, tier, shard, nshards):
